@@ -257,6 +257,12 @@ class GeoIndex:
             built. The second row contains the matches in the query points.
             *distances* is a numpy array with distances in kilometers.
         """
+        # Query points may also be given as lists or single numbers:
+        if isinstance(lat, (Number, list)):
+            lat = np.atleast_1d(np.asarray(lat, dtype=float))
+        if isinstance(lon, (Number, list)):
+            lon = np.atleast_1d(np.asarray(lon, dtype=float))
+
         points = self._to_metric(lat, lon)
 
         # The user passes the radius in kilometers but we calculate with meters
